@@ -26,9 +26,9 @@ Theorem transition_table : forall (s : vsock) (h : chdr),
      state_table s h = TblErr (set_state s Closed) ErrStResetReceived) /\
   (* 3  (_, ST_SYN) *)
   (ch_type h = ST_SYN -> state_table s h = TblDrop s) /\
-  (* 4  (Closed, _) *)
+  (* 4  (Closed, _) : ignored (repair of D15) *)
   (ch_type h <> ST_RESET -> ch_type h <> ST_SYN -> v_state s = Closed ->
-     state_table s h = TblErr s (ErrBug BugRecvInClosed)) /\
+     state_table s h = TblDrop s) /\
   (* 5  (SynReceived, _) *)
   (ch_type h <> ST_RESET -> ch_type h <> ST_SYN -> v_state s = SynReceived ->
      state_table s h = TblErr s (ErrBug BugUnexpectedPacketInSynReceived)) /\
@@ -39,8 +39,11 @@ Theorem transition_table : forall (s : vsock) (h : chdr),
   (forall k, data_or_state (ch_type h) -> v_state s = SynAckSent k ->
      ch_ack h = wsub16 (v_seq_nr s) 1 ->
      state_table s h = TblContinue (set_state (restart_remote_inactivity_timer s) Established)) /\
+  (* 7a (SynAckSent, ST_FIN) if seq_nr != last_consumed + 1 : dropped (repair of D19) *)
+  (forall k, ch_type h = ST_FIN -> v_state s = SynAckSent k -> ~ in_seq s h ->
+     state_table s h = TblDrop s) /\
   (* 8  (SynAckSent, ST_FIN) *)
-  (forall k, ch_type h = ST_FIN -> v_state s = SynAckSent k ->
+  (forall k, ch_type h = ST_FIN -> v_state s = SynAckSent k -> in_seq s h ->
      state_table s h = TblContinue (set_state s Closed)) /\
   (* 9  (Established, ST_DATA | ST_STATE) *)
   (data_or_state (ch_type h) -> v_state s = Established -> state_table s h = TblContinue s) /\
@@ -93,7 +96,8 @@ Proof.
   - intros H1 H2 Hs. unfold state_table. rewrite Hs. destruct (ch_type h); try reflexivity; congruence.
   - intros k [Ht|Ht] Hs Ha; unfold state_table; rewrite Ht, Hs; eqb_rw; reflexivity.
   - intros k [Ht|Ht] Hs Ha; unfold state_table; rewrite Ht, Hs; eqb_rw; reflexivity.
-  - intros k Ht Hs. unfold state_table. rewrite Ht, Hs. reflexivity.
+  - intros k Ht Hs Hn. unfold state_table. rewrite Ht, Hs. eqb_rw. reflexivity.
+  - intros k Ht Hs Hi. unfold state_table. rewrite Ht, Hs. eqb_rw. reflexivity.
   - intros [Ht|Ht] Hs; unfold state_table; rewrite Ht, Hs; reflexivity.
   - intros Ht [Hs|[[f Hs]|Hs]] Hn; unfold state_table; rewrite Ht, Hs; eqb_rw; reflexivity.
   - intros Ht Hs Hi. unfold state_table. rewrite Ht, Hs. eqb_rw. reflexivity.
@@ -241,11 +245,12 @@ Proof.
   destruct H1 as [H1|H1]; [left; apply andb_prop in H1; exact H1|right; exact H1].
 Qed.
 
-(* ---- FIN only after all accepted data: true when the last segmentation ran to its end ---- *)
-(* `unsegmented_data` of this poll is what split_tx_queue_into_segments computes when it does not
-   return early: ring length minus segmented length *)
+(* ---- FIN only after all accepted data ---- *)
+(* `unsegmented_data` of this poll is what split_tx_queue_into_segments computes whenever it looks at
+   a non-empty send buffer before the peer's FIN (since the repair of D10 also when it returns early
+   on an outstanding MTU probe, see split_fresh_after): ring length minus segmented length, saturating *)
 Definition split_fresh (s : vsock) : Prop :=
-  v_unsegmented s = Z.of_nat (length (ring (v_tx s))) - ss_len_bytes (v_segs s).
+  v_unsegmented s = sat_sub (Z.of_nat (length (ring (v_tx s)))) (ss_len_bytes (v_segs s)).
 
 Lemma in_iter_for_sending : forall (t : segments) g,
   In g (ss_segs t) -> sg_delivered g = false ->
@@ -270,7 +275,7 @@ Theorem fin_after_all_data : forall s : vsock,
 Proof.
   intros s H Hf. apply should_close_guard in H as (_ & Hu & _).
   unfold unsent_data_exists in Hu. apply orb_false_iff in Hu as (Hu1 & Hu2).
-  split; [unfold split_fresh in Hf; lia|].
+  split; [unfold split_fresh, sat_sub in Hf; lia|].
   intros g Hin. destruct (sg_delivered g) eqn:Hd; [left; reflexivity|right].
   destruct (in_iter_for_sending _ _ Hin Hd) as (f & Hfin & Hg).
   assert (Hx : (seg_send_count (fs_seg f) =? 0) = false).
@@ -294,21 +299,305 @@ Proof.
   - intro H. apply IH in H. unfold enqueue, Segments.set_segs in H. cbn [ss_len_bytes] in H. lia.
 Qed.
 
+Lemma segment_loop_rem_nonneg : forall fuel nagle ss segs rem rwr ss' segs' rem',
+  segment_loop fuel nagle ss segs rem rwr = Some (ss', segs', rem') -> 0 <= rem -> 0 <= rem'.
+Proof.
+  induction fuel as [|x fuel IH]; intros nagle ss segs rem rwr ss' segs' rem'; cbn [segment_loop].
+  { intro H; injection H as <- <- <-. auto. }
+  destruct (_ && _); [|intro H; injection H as <- <- <-; auto].
+  destruct (next_segment_size ss) as [[ss1 sz]|]; [|discriminate].
+  cbv zeta. destruct (_ && _ && _); [intro H; injection H as <- <- <-; auto|].
+  destruct (_ <? _).
+  - intros H Hr; injection H as <- <- <-. lia.
+  - intros H Hr. apply IH in H; [exact H|lia].
+Qed.
+
+(* the part of split_tx_queue_into_segments after the MTU-probe decision *)
+Lemma split_cont_fresh (s2 s' : vsock) tl :
+  tl = Z.of_nat (length (ring (v_tx s2))) ->
+  (if tl <? ss_len_bytes (v_segs s2) then SErr s2 (ErrBug BugInBufferComputations)
+   else match segment_loop (ring (v_tx s2)) (o_nagle (v_opts s2)) (v_ss s2) (v_segs s2)
+                (tl - ss_len_bytes (v_segs s2)) (v_last_remote_window s2) with
+        | Some (ss', segs', remaining) =>
+            SOk (set_unsegmented (set_segs (set_ss s2 ss') segs') remaining) tt
+        | None => SPanic
+        end) = SOk s' tt ->
+  split_fresh s'.
+Proof.
+  intros Htl. destruct (Z.ltb_spec tl (ss_len_bytes (v_segs s2))) as [Hlt|Hge]; [discriminate|].
+  destruct (segment_loop _ _ _ _ _ _) as [[[ss' segs'] rem]|] eqn:E; [|discriminate].
+  intro H; injection H as <-. unfold split_fresh. vsimpl.
+  pose proof (segment_loop_len _ _ _ _ _ _ _ _ _ E) as Hl.
+  pose proof (segment_loop_rem_nonneg _ _ _ _ _ _ _ _ _ E) as Hn.
+  unfold sat_sub. lia.
+Qed.
+
+(* every segmentation that looks at a non-empty send buffer before the peer's FIN leaves
+   `unsegmented` fresh - also the early return on an outstanding MTU probe (repair of D10).
+   (With an empty buffer, or after the peer's FIN, the function returns before it touches the field;
+   in the second case the state is LastAck / Closed and no FIN is decided any more.) *)
+Theorem split_fresh_after : forall (s s' : vsock),
+  split_tx_queue_into_segments cci s = SOk s' tt ->
+  is_remote_fin_or_later (v_state s) = false -> ring (v_tx s) <> [] -> split_fresh s'.
+Proof.
+  intros s s' H Hst Hne. unfold split_tx_queue_into_segments in H. cbv zeta in H.
+  destruct (Z.eqb_spec (Z.of_nat (length (ring (v_tx s)))) 0) as [E0|E0].
+  { destruct (ring (v_tx s)); [congruence|cbn [length] in E0; lia]. }
+  revert H.
+  match goal with |- (if is_remote_fin_or_later (v_state ?x) then _ else _) = _ -> _ =>
+    assert (F : v_state x = v_state s /\ ring (v_tx x) = ring (v_tx s)); [|revert F; generalize x; intros s1 (F1 & F2)] end.
+  { destruct (_ && _); [|split; reflexivity]. unfold grow.
+    destruct (_ <=? _); cbn [fst snd]; [vsimpl; split; reflexivity|].
+    unfold wake_writer, add_wakes. vsimpl. cbn [ring upd]. split; reflexivity. }
+  rewrite F1, Hst.
+  destruct (pop_expired_mtu_probe _ _ _) as [segs1 pe]. destruct pe.
+  - apply split_cont_fresh. destruct (seq_gt _ _); vsimpl; rewrite F2; reflexivity.
+  - intro H; injection H as <-. unfold split_fresh. vsimpl. rewrite F2. reflexivity.
+  - apply split_cont_fresh. rewrite F2; reflexivity.
+Qed.
+
+(* with an empty send buffer the function only registers the dispatcher waker *)
+Theorem split_empty_ring : forall s : vsock,
+  ring (v_tx s) = [] ->
+  split_tx_queue_into_segments cci s = SOk (set_tx s (register_dispatcher_if_empty (v_tx s))) tt.
+Proof. intros s H. unfold split_tx_queue_into_segments. rewrite H. reflexivity. Qed.
+
+(* ---- between the segmentation and the decision to close: send_tx_queue ---- *)
+(* what send_tx_queue leaves alone, unless it pops a failed MTU probe and asks for a restart of the poll *)
+Definition uframe (s s' : vsock) : Prop :=
+  v_unsegmented s' = v_unsegmented s /\ ring (v_tx s') = ring (v_tx s) /\
+  ss_len_bytes (v_segs s') = ss_len_bytes (v_segs s).
+
+Lemma uframe_refl s : uframe s s.
+Proof. unfold uframe. auto. Qed.
+
+Lemma uframe_trans a b c : uframe a b -> uframe b c -> uframe a c.
+Proof. unfold uframe. intros (A1 & A2 & A3) (B1 & B2 & B3). repeat split; congruence. Qed.
+
+Definition sufr {A} (s : vsock) (m : step A) : Prop :=
+  match m with SOk s' _ => uframe s s' | _ => True end.
+Definition sufr_r {A} (s : vsock) (m : step A) : Prop :=
+  match m with SOk s' _ => uframe s s' \/ v_restart s' = true | _ => True end.
+
+Lemma sufr_bind {A B} s (m : step A) (f : vsock -> A -> step B) :
+  sufr s m -> (forall s1 a, sufr s1 (f s1 a)) -> sufr s (sbind m f).
+Proof.
+  intros Hm Hf. destruct m as [s1 a|s1 e|]; cbn [sbind sufr] in *; auto.
+  specialize (Hf s1 a). destruct (f s1 a); cbn [sufr] in *; auto. eapply uframe_trans; eauto.
+Qed.
+
+Lemma sufr_r_bind {A B} s (m : step A) (f : vsock -> A -> step B) :
+  sufr s m -> (forall s1 a, sufr_r s1 (f s1 a)) -> sufr_r s (sbind m f).
+Proof.
+  intros Hm Hf. destruct m as [s1 a|s1 e|]; cbn [sbind sufr] in *; auto; try exact I.
+  specialize (Hf s1 a). destruct (f s1 a); cbn [sufr_r] in *; auto.
+  destruct Hf as [Hf|Hf]; [left; eapply uframe_trans; eauto|right; exact Hf].
+Qed.
+
+Lemma sufr_weaken {A} s0 s (m : step A) : uframe s0 s -> sufr s m -> sufr s0 m.
+Proof. intros H Hm. destruct m; cbn [sufr] in *; auto. eapply uframe_trans; eauto. Qed.
+
+Ltac uf_triv := unfold uframe; vsimpl; repeat split; reflexivity.
+Ltac abs_as t F z := revert F; generalize t; intros z F.
+
+Lemma uframe_emit s p : uframe s (emit s p).
+Proof. unfold emit. uf_triv. Qed.
+Lemma uframe_on_packet_sent s h : uframe s (on_packet_sent s h).
+Proof. unfold on_packet_sent. uf_triv. Qed.
+Lemma uframe_set_last_sent s x : uframe s (set_last_sent_seq_nr s x).
+Proof. uf_triv. Qed.
+Lemma uframe_set_seq_nr s x : uframe s (set_seq_nr s x).
+Proof. uf_triv. Qed.
+Lemma uframe_set_t_retransmit s x : uframe s (set_t_retransmit s x).
+Proof. uf_triv. Qed.
+Lemma uframe_set_t_inactivity s x : uframe s (set_t_inactivity s x).
+Proof. uf_triv. Qed.
+Lemma uframe_set_transport_pending s x : uframe s (set_transport_pending s x).
+Proof. uf_triv. Qed.
+Lemma uframe_on_sent s i now : uframe s (set_segs s (on_sent (v_segs s) i now)).
+Proof. unfold uframe; vsimpl. repeat split; reflexivity. Qed.
+Lemma uframe_set_recovering s rc : uframe s (set_recovering s rc).
+Proof. unfold set_recovering. uf_triv. Qed.
+
+Lemma next_send_uframe (s : vsock) n s1 o : next_send s n = (s1, o) -> uframe s s1.
+Proof. intro E. apply next_send_same in E. destruct E as [->|[r ->]]; [apply uframe_refl|uf_triv]. Qed.
+
+Lemma send_control_packet_uframe s h : sufr s (send_control_packet s h).
+Proof.
+  unfold send_control_packet. destruct (v_transport_pending s); [apply uframe_refl|].
+  destruct (next_send s _) as [s1 o] eqn:E. apply next_send_uframe in E.
+  destruct o; cbn [sufr]; auto.   (* the fields of uframe are untouched: by conversion *)
+Qed.
+
+Lemma maybe_send_fin_uframe s : sufr s (maybe_send_fin s).
+Proof.
+  unfold maybe_send_fin. destruct (v_transport_pending s); [apply uframe_refl|].
+  destruct (our_fin_if_unacked (v_state s)); [|apply uframe_refl].
+  destruct (negb _); [apply uframe_refl|].
+  apply sufr_bind; [apply send_control_packet_uframe|].
+  intros s1 a. destruct a; cbn [sufr]; [|apply uframe_refl].
+  eapply uframe_trans; [apply uframe_set_t_retransmit|apply uframe_set_last_sent].
+Qed.
+
+Lemma send_data_uframe s h f : sufr s (send_data s h f).
+Proof.
+  unfold send_data. destruct (_ =? _); [exact I|].
+  destruct (_ <? 0); [exact I|]. destruct (_ <? _); [exact I|].
+  destruct (_ <? _); [exact I|].
+  destruct (next_send s _) as [s1 o] eqn:E. apply next_send_uframe in E.
+  destruct o; cbn [sufr]; auto.
+  eapply uframe_trans; [exact E|].
+    eapply uframe_trans; [apply uframe_emit|].
+    eapply uframe_trans; [|apply uframe_set_t_inactivity].
+    eapply uframe_trans; [|apply uframe_set_t_retransmit].
+    eapply uframe_trans; [apply uframe_on_sent|].
+    eapply uframe_trans; [apply uframe_on_packet_sent|].
+    destruct (seq_gt _ _); [|apply uframe_refl].
+    eapply uframe_trans; [apply uframe_set_last_sent|].
+    destruct (seq_gt _ _); [apply uframe_set_seq_nr|apply uframe_refl].
+Qed.
+
+Lemma on_rto_reactions_uframe s s' : on_rto_reactions cci s = Some s' -> uframe s s'.
+Proof. unfold on_rto_reactions. destruct (on_rto_timeout _); [|discriminate].
+  intro H; injection H as <-. uf_triv. Qed.
+
+Lemma recovery_loop_uframe : forall items s h mss0 st, sufr s (recovery_loop items s h mss0 st).
+Proof.
+  induction items as [|f rest IH]; intros; cbn [recovery_loop]; [apply uframe_refl|].
+  destruct (negb _); [apply uframe_refl|].
+  destruct (_ && _); [apply IH|]. destruct (_ && _); [apply uframe_refl|].
+  pose proof (send_data_uframe s h f) as Hd. destruct (send_data s h f) as [s1 r|s1 e|]; cbn [sufr] in *; auto.
+  destruct r; cbn [sufr]; auto. eapply sufr_weaken; [exact Hd|apply IH].
+Qed.
+
+Lemma new_data_loop_uframe : forall items s h rem, sufr s (new_data_loop items s h rem).
+Proof.
+  induction items as [|f rest IH]; intros; cbn [new_data_loop]; [apply uframe_refl|].
+  destruct (_ <? _); [apply uframe_refl|].
+  pose proof (send_data_uframe s h f) as Hd. destruct (send_data s h f) as [s1 r|s1 e|]; cbn [sufr] in *; auto.
+  destruct r; cbn [sufr]; auto. eapply sufr_weaken; [exact Hd|apply IH].
+Qed.
+
+Theorem send_tx_queue_uframe s : sufr_r s (send_tx_queue cci s).
+Proof.
+  unfold send_tx_queue. destruct (v_transport_pending s); [left; apply uframe_refl|].
+  apply sufr_r_bind.
+  { destruct (timer_expired _ _); [|apply uframe_refl].
+    destruct (iter_for_sending _ _) as [|f l].
+    - destruct (our_fin_if_unacked _); [|cbn [sufr]; apply uframe_set_t_retransmit].
+      destruct (_ =? _); [|cbn [sufr]; apply uframe_set_t_retransmit].
+      apply sufr_weaken with (s := set_last_sent_seq_nr s (wsub16 (v_last_sent_seq_nr s) 1));
+        [apply uframe_set_last_sent|].
+      apply sufr_bind; [apply maybe_send_fin_uframe|].
+      intros s1 a. destruct a; [|apply uframe_refl].
+      destruct (on_rto_reactions cci s1) eqn:E; [|exact I]. apply on_rto_reactions_uframe in E.
+      cbn [sufr]. eapply uframe_trans; [exact E|apply uframe_set_t_retransmit].
+    - pose proof (send_data_uframe s (outgoing_header s) f) as Hd.
+      destruct (send_data _ _ f) as [s1 r|s1 e|]; cbn [sufr] in *; auto.
+      destruct r; cbn [sufr]; auto.
+      cbv zeta.
+      match goal with |- sufr _ (match ?o with _ => _ end) => destruct o as [s2|] eqn:E end; [|exact I].
+      assert (F2 : uframe s1 s2).
+      { destruct (negb _); [apply on_rto_reactions_uframe; exact E|injection E as <-; apply uframe_refl]. }
+      cbn [sufr]. eapply uframe_trans; [exact Hd|]. eapply uframe_trans; [exact F2|]. uf_triv. }
+  intros s1 ret. destruct ret; [left; apply uframe_refl|].
+  destruct (0 <? _); [left; apply uframe_refl|]. destruct (ss_segs _); [left; apply uframe_refl|].
+  apply sufr_r_bind.
+  { destruct (rv_phase _); try apply uframe_refl.
+    apply sufr_bind; [apply recovery_loop_uframe|].
+    intros s2 [st early]. cbv beta iota zeta.
+    destruct early; [apply uframe_set_recovering|].
+    match goal with |- sufr _ (match our_fin_if_unacked (v_state ?y) with _ => _ end) =>
+      assert (F3 : uframe s2 y); [|abs_as y F3 sy] end.
+    { eapply uframe_trans; [apply uframe_set_recovering|].
+      destruct (_ <? _); [|apply uframe_refl]. destruct (rc_recalc _); [uf_triv|].
+      destruct (0 <? _); [uf_triv|apply uframe_refl]. }
+    destruct (our_fin_if_unacked _); [destruct (_ =? _)|]; cbn [sufr]; auto. }
+  intros s2 ret. destruct ret; [left; apply uframe_refl|].
+  apply sufr_r_bind; [apply new_data_loop_uframe|].
+  intros s3 tl. destruct tl as [[sq sz]|]; [|left; apply uframe_refl].
+  destruct (pop_mtu_probe _ _) as [segs' popped]. destruct popped; cbn [sufr_r]; [|exact I].
+  right. reflexivity.
+Qed.
+
+(* the composition as it appears in poll_body:
+     bail (split_tx_queue_into_segments s4) (fun s5 _ => pend (send_tx_queue s5) (fun s6 _ =>
+       let s := if should_close_on_own_initiative s6 then transition_to_fin_wait_1 s6 else s6 in ...
+   (pend hands s6 on only when no restart was requested).  FIN only after all accepted data, with NO
+   hypothesis on `unsegmented`: whenever a poll that looked at a non-empty send buffer before the peer's
+   FIN decides to close, every byte of the buffer is segmented and every segment was sent at least once *)
+Theorem fin_after_all_data_in_poll : forall (s4 s5 s6 : vsock),
+  split_tx_queue_into_segments cci s4 = SOk s5 tt ->
+  is_remote_fin_or_later (v_state s4) = false -> ring (v_tx s4) <> [] ->
+  send_tx_queue cci s5 = SOk s6 tt -> v_restart s6 = false ->
+  should_close_on_own_initiative s6 = true ->
+  Z.of_nat (length (ring (v_tx s6))) <= ss_len_bytes (v_segs s6) /\
+  (forall g, In g (ss_segs (v_segs s6)) -> sg_delivered g = true \/ seg_send_count g <> 0).
+Proof.
+  intros s4 s5 s6 Hsp Hst Hne Htx Hr Hc.
+  pose proof (split_fresh_after s4 s5 Hsp Hst Hne) as Hf.
+  pose proof (send_tx_queue_uframe s5) as Hu. rewrite Htx in Hu. cbn [sufr_r] in Hu.
+  destruct Hu as [(U1 & U2 & U3)|Hu]; [|congruence].
+  apply fin_after_all_data; [exact Hc|].
+  unfold split_fresh in *. rewrite U1, U2, U3. exact Hf.
+Qed.
+
+(* ---- the number of the next NEW packet never moves backwards (repair of D13) ---- *)
+(* send_data either leaves seq_nr alone or raises it (in the circular order) to one past the
+   segment just sent; an error leaves it alone *)
+Theorem send_data_seq_nr_mono : forall (s s' : vsock) h f r,
+  send_data s h f = SOk s' r ->
+  v_seq_nr s' = v_seq_nr s \/
+  (v_seq_nr s' = wadd16 (fs_seq f) 1 /\ seq_gt (wadd16 (fs_seq f) 1) (v_seq_nr s) = true /\
+   v_last_sent_seq_nr s' = fs_seq f).
+Proof.
+  intros s s' h f r. unfold send_data.
+  destruct (_ =? _); [discriminate|].
+  destruct (_ <? 0); [discriminate|]. destruct (_ <? _); [discriminate|].
+  destruct (_ <? _); [discriminate|].
+  destruct (next_send s _) as [s1 o] eqn:E. apply next_send_same in E.
+  destruct o; try discriminate.
+  - cbv zeta. unfold on_packet_sent, emit.
+    destruct E as [->|[q ->]]; vsimpl;
+      (destruct (seq_gt (fs_seq f) (v_last_sent_seq_nr s));
+       [destruct (seq_gt (wadd16 (fs_seq f) 1) (v_seq_nr s)) eqn:Eg|]);
+      intro H; injection H as <- _; vsimpl; auto.
+  - intro H; injection H as <- _. destruct E as [->|[q ->]]; vsimpl; auto.
+  - intro H; injection H as <- _. destruct E as [->|[q ->]]; vsimpl; auto.
+Qed.
+
+Theorem send_data_err_seq_nr : forall (s s' : vsock) h f e,
+  send_data s h f = SErr s' e -> v_seq_nr s' = v_seq_nr s.
+Proof.
+  intros s s' h f e. unfold send_data.
+  destruct (_ =? _); [intro H; injection H as <- _; reflexivity|].
+  destruct (_ <? 0); [discriminate|].
+  destruct (_ <? _); [intro H; injection H as <- _; reflexivity|].
+  destruct (_ <? _); [intro H; injection H as <- _; reflexivity|].
+  destruct (next_send s _) as [s1 o] eqn:E. apply next_send_same in E.
+  destruct o; try discriminate.
+  intro H; injection H as <- _. destruct E as [->|[q ->]]; vsimpl; auto.
+Qed.
+
 
 (* ================================================================== (d) the peer's FIN *)
 Lemma seq_sub_refl x : seq_sub x x = 0.
 Proof. unfold seq_sub, seq_nr_offset. rewrite Z.ltb_irrefl, Z.eqb_refl. reflexivity. Qed.
 
-(* out of sequence: the message is consumed and NOTHING else happens (same state returned) *)
+(* out of sequence: the message is consumed and NOTHING else happens (same state returned);
+   since the repair of D19 also while our SYN-ACK is unanswered *)
 Theorem peer_fin_out_of_sequence : forall (s : vsock) m,
   ch_type (m_hdr m) = ST_FIN ->
-  (v_state s = Established \/ (exists f, v_state s = FinWait1 f) \/ v_state s = FinWait2) ->
+  ((exists k, v_state s = SynAckSent k) \/
+   v_state s = Established \/ (exists f, v_state s = FinWait1 f) \/ v_state s = FinWait2) ->
   ~ in_seq s (m_hdr m) ->
   process_incoming_message cci s m = SOk s on_ack_result_default.
 Proof.
   intros s m Ht Hs Hn. unfold process_incoming_message. cbv zeta.
-  destruct (transition_table s (m_hdr m)) as (_&_&_&_&_&_&_&_&_&R10&_).
-  rewrite (R10 Ht Hs Hn). reflexivity.
+  destruct (transition_table s (m_hdr m)) as (_&_&_&_&_&_&_&R7a&_&_&R10&_).
+  destruct Hs as [[k Hs]|Hs].
+  - rewrite (R7a k Ht Hs Hn). reflexivity.
+  - rewrite (R10 Ht Hs Hn). reflexivity.
 Qed.
 
 (* in sequence, from Established: consumed, immediate ACK forced, our FIN numbered seq_nr, the
@@ -322,7 +611,7 @@ Theorem peer_fin_in_sequence_established : forall (s : vsock) m s' r,
   v_last_sent_seq_nr s' = v_last_sent_seq_nr s.
 Proof.
   intros s m s' r Hs Ht Hi. unfold process_incoming_message. cbv zeta.
-  destruct (transition_table s (m_hdr m)) as (_&_&_&_&_&_&_&_&_&_&R11&_).
+  destruct (transition_table s (m_hdr m)) as (_&_&_&_&_&_&_&_&_&_&_&R11&_).
   rewrite (R11 Ht Hs Hi). rewrite Hs. cbn [is_remote_fin_or_later negb].
   destruct (remove_up_to_ack _ _ _ _) as [segs1 res].
   match goal with |- context [match ?o with Some rtte1 => _ | None => SPanic end] => destruct o as [rtte1|] end;
@@ -514,7 +803,7 @@ Qed.
 
 End WithCC.
 
-(* ================================================================== refutation witnesses *)
+(* ================================================================== regression witnesses *)
 (* a congestion controller with a constant window (the witnesses do not depend on CUBIC) *)
 Definition fixed_cc (w : Z) : cc_iface unit :=
   {| cc_window := fun _ => w; cc_sshthresh := fun _ => w; cc_set_mss := fun c _ => c;
@@ -529,38 +818,42 @@ Definition wit_cfg (mtu : Z) : vconfig :=
      vc_isn := 100; vc_remote_seq := 1; vc_remote_conn_id := 7; vc_remote_wnd := 1048576;
      vc_remote_ts := 0; vc_syn_sent := 0; vc_now0 := 1000000000 |}.
 
-(* D10: 528 + 991 bytes written and sent (the second segment is an MTU probe, outstanding);
+(* D10 (repaired): 528 + 991 bytes written and sent (the second segment is an MTU probe, outstanding);
    100 more bytes written; both halves dropped; the next poll returns early from
-   split_tx_queue_into_segments (PeNotExpired), `unsegmented` stays 0, the FIN is numbered 103
-   and sent while 100 bytes of the ring were never segmented *)
+   split_tx_queue_into_segments (PeNotExpired).  Before the repair `unsegmented` stayed 0 and the FIN
+   was numbered 103 and sent while 100 bytes of the ring were never segmented; now `unsegmented` is
+   100, the connection stays Established and no FIN is emitted *)
 Definition d10_ops : list vop :=
   [VoWrite (repeat 7 1519); VoPoll []; VoWrite (repeat 9 100); VoDropReader; VoDropWriter; VoPoll []].
 
-Definition d10_witness : bool :=
+Definition d10_regression_b : bool :=
   match vsock_new (fixed_cc 4096) (fun _ _ => tt) (wit_cfg 1500) with
   | Some s0 =>
       let tr := ftrace (fixed_cc 4096) s0 d10_ops in
-      negb (forallb (c17_fin_after_data_ok (wit_cfg 1500)) tr) &&
+      forallb (c17_fin_after_data_ok (wit_cfg 1500)) tr &&
+      c17_fin_seq_ok (wit_cfg 1500) tr &&
+      negb (existsb (pkt_is ST_FIN) (all_pkts tr)) &&
       match last tr {| fs_now := 0; fs_pre := fp_of_vsock (fixed_cc 4096) s0; fs_event := FeFlush;
                        fs_result := FrNone; fs_disp_woken := false; fs_self_woken := false;
                        fs_post := fp_of_vsock (fixed_cc 4096) s0 |} with
       | st => match f_state (fs_post st), fs_result st with
-              | FinWait1 103, FrPoll PollPending [p] _ _ =>
-                  pkt_is ST_FIN p && (pkt_seq p =? 103) &&
+              | Established, FrPoll PollPending _ _ _ =>
                   (f_tx_len (fs_post st) =? 1619) && (f_seg_len_bytes (fs_post st) =? 1519) &&
-                  (f_unsegmented (fs_post st) =? 0)
+                  (f_unsegmented (fs_post st) =? 100)
               | _, _ => false
               end
       end
   | None => false
   end.
 
-Theorem fin_overtakes_data_refuted : d10_witness = true.
+Theorem fin_overtakes_data_regression : d10_regression_b = true.
 Proof. vm_compute. reflexivity. Qed.
 
-(* D13: three segments 101..103 sent; RTO resends 101 and rewinds last_sent_seq_nr to 101; the ack
-   of 101 (window 528) lets 102 go out again, and send_data sets seq_nr := 103 although segment 103
-   is still outstanding; both halves dropped: FIN numbered 103 = the number of a data segment *)
+(* D13 (repaired): three segments 101..103 sent; RTO resends 101 and rewinds last_sent_seq_nr to 101;
+   the ack of 101 (window 528) lets 102 go out again.  Before the repair send_data set seq_nr := 103
+   although segment 103 is still outstanding and the FIN took the number of a data segment; now
+   seq_nr stays 104: both halves dropped, the FIN is numbered 104 (FinWait1 104), above the number of
+   every data segment on the wire (103 among them) and of every segment still outstanding *)
 Definition d13_ack : msg :=
   {| m_hdr := {| ch_type := ST_STATE; ch_conn_id := 0; ch_ts := 6; ch_ts_diff := 0; ch_wnd := 528;
                  ch_seq := 1; ch_ack := 101; ch_sack := None; ch_close_reason := None |};
@@ -569,15 +862,31 @@ Definition d13_ops : list vop :=
   [VoWrite (repeat 7 1584); VoPoll []; VoSetNow 8000000000; VoPoll []; VoDeliver d13_ack; VoPoll [];
    VoDropReader; VoDropWriter; VoPoll []].
 
-Definition d13_witness : bool :=
+Definition d13_regression_b : bool :=
   match vsock_new (fixed_cc 1584) (fun _ _ => tt) (wit_cfg 576) with
   | Some s0 =>
       let tr := ftrace (fixed_cc 1584) s0 d13_ops in
-      negb (c17_fin_seq_ok (wit_cfg 576) tr) &&
-      existsb (fun p => pkt_is ST_FIN p && (pkt_seq p =? 103)) (all_pkts tr) &&
-      existsb (fun p => pkt_is ST_DATA p && (pkt_seq p =? 103)) (all_pkts tr)
+      c17_fin_seq_ok (wit_cfg 576) tr &&
+      forallb (c17_fin_number_step_ok (wit_cfg 576)) tr &&
+      forallb (c17_fin_after_data_ok (wit_cfg 576)) tr &&
+      existsb (fun p => pkt_is ST_DATA p && (pkt_seq p =? 103)) (all_pkts tr) &&
+      match last tr {| fs_now := 0; fs_pre := fp_of_vsock (fixed_cc 1584) s0; fs_event := FeFlush;
+                       fs_result := FrNone; fs_disp_woken := false; fs_self_woken := false;
+                       fs_post := fp_of_vsock (fixed_cc 1584) s0 |} with
+      | st => match f_state (fs_post st) with
+              | FinWait1 f =>
+                  (f =? 104) && (f_seq_nr (fs_post st) =? 105) &&
+                  (* above every data segment ever put on the wire ... *)
+                  forallb (fun p => if pkt_is ST_DATA p then seq_lt (pkt_seq p) f else true) (all_pkts tr) &&
+                  (* ... and above every segment still outstanding (snd_una + index) *)
+                  negb (match f_segs (fs_post st) with [] => true | _ => false end) &&
+                  seq_lt (wadd16 (f_snd_una (fs_post st))
+                                 (Z.of_nat (length (f_segs (fs_post st))) - 1)) f
+              | _ => false
+              end
+      end
   | None => false
   end.
 
-Theorem fin_number_collides_with_data_refuted : d13_witness = true.
+Theorem fin_number_collides_with_data_regression : d13_regression_b = true.
 Proof. vm_compute. reflexivity. Qed.
